@@ -8,17 +8,17 @@ namespace Wm.Ack
 
 /-- `ackSentType` -/
 inductive Sent | none | ack | nack
-  deriving DecidableEq, Repr, Inhabited
+  deriving DecidableEq, Repr, Inhabited, Hashable
 
 /-- state of one of the two channels: `nil` (message built without the constructor), open, closed -/
 inductive Ch | nil | opn | closed
-  deriving DecidableEq, Repr, Inhabited
+  deriving DecidableEq, Repr, Inhabited, Hashable
 
 structure St where
   sent   : Sent
   ackCh  : Ch
   nackCh : Ch
-  deriving DecidableEq, Repr, Inhabited
+  deriving DecidableEq, Repr, Inhabited, Hashable
 
 /-- how the message was built -/
 inductive Kind | new | copy | zero
